@@ -165,6 +165,35 @@ def streams(tier, rng):
         for nm in {name, name[:ns], name.lower(), name[:ns].lower(), name.upper()}:
             add(nm, 'PNUM:1', 'special', tag)
 
+    # two numbers with units in a row on one context (decoding must not depend on what was decoded before)
+    seqcases, seqinfo = [], {}
+    names = [u for u in us]
+    byname = {n: (uid, mult) for n, uid, mult in us}
+    pairs = [(a, b) for a in names for b in names if a[0] != b[0] and (b[0].upper().startswith(a[0].upper()) or a[0].upper().startswith(b[0].upper()))]
+    for _ in range(300 if tier == 'quick' else 3000):
+        pairs.append((rng.choice(names), rng.choice(names)))
+    for (a, b) in pairs:
+        va, vb = rng.choice(['1', '2.5', '10']), rng.choice(['50', '3', '0.5'])
+        la = va + rng.choice(['', ' ']) + rng.choice([a[0], a[0].lower()])
+        lb = vb + rng.choice(['', ' ']) + rng.choice([b[0], b[0].lower()])
+        c = gen.scenario(256, 8, [(1, b'DD', 'PNUM:1')], [('I', b'DD ' + la.encode() + b'\n'), ('I', b'DD ' + lb.encode() + b'\n')])
+        seqcases.append(c)
+        seqinfo[c] = ((la, va, a[1], a[2]), (lb, vb, b[1], b[2]))
+
+    def seqoracle(case, out):
+        if out.startswith('X') or ' X' in out or case not in seqinfo:
+            return []
+        ps = re.findall(r' P12:(\d):([-\d,]*)', out)
+        for (lit, v, uid, mult), pr in zip(seqinfo[case], ps):
+            x = float(v) * struct.unpack('<d', struct.pack('<Q', mult))[0]
+            want = [0, struct.unpack('<Q', struct.pack('<d', x))[0], uid, 10]
+            got = [int(t) for t in pr[1].split(',') if t != '']
+            if pr[0] != '1' or got != want:
+                return [('unit-sequence', 'after %r, literal %r read as number gives %s, expected %s' % (seqinfo[case][0][0], lit, got if pr[0] == '1' else 'FAILURE', want))]
+        if len(ps) != 2:
+            return [('unit-sequence', 'two literals, %d reads: %s' % (len(ps), out[:200]))]
+        return []
+
     def oracle(case, out):
         if out.startswith('X') or ' X' in out or case not in info:
             return []
@@ -208,3 +237,4 @@ def streams(tier, rng):
             return []
         return []
     yield {'name': 'literals', 'cases': cases, 'oracle': oracle, 'nontrivial': lambda c, o: c if len(info[c][0]) >= 2 else None}
+    yield {'name': 'unit-sequences', 'cases': seqcases, 'oracle': seqoracle, 'nontrivial': lambda c, o: c}
